@@ -1581,6 +1581,12 @@ static size_t produceResultArrayBinary(scpi_t * context, const void * array, siz
                 return 0;
         }
 
+        if (count == 0) {
+            /* empty array - complete the block so that it counts as a result item */
+            result += SCPI_ResultArbitraryBlockData(context, array, 0);
+            return result;
+        }
+
         switch (item_size) {
             case 1:
                 result += SCPI_ResultArbitraryBlockData(context, array, count);
